@@ -197,7 +197,7 @@ func TestChainModeLaggedFinalize(t *testing.T) {
 
 // Large rounds (more than 256 changed nodes, the node store's batch size) with every crash prefix of their write stream.
 func TestLargeRoundCrash(t *testing.T) {
-	ev.Rapid(t, 3, 40)
+	ev.Rapid(t, 2, 6)
 	rapid.Check(t, func(rt *rapid.T) {
 		n := gen.Uniform(rt, 400, 1200, "nkeys")
 		key := func(i int) string { return fmt.Sprintf("%02x%02x%02x", (i*37)%256, (i*11)%256, i%251) }
